@@ -86,7 +86,8 @@ pub fn float_literal_ok(text: &str) -> bool {
     if text.starts_with("0x") || text.starts_with("0X") {
         return u64::from_str_radix(&text[2..], 16).is_ok();
     }
-    text.parse::<f64>().is_ok()
+    // a literal that overflows to infinity is not representable
+    text.parse::<f64>().map_or(false, |v| v.is_finite())
 }
 
 impl<'a> Interp<'a> {
